@@ -41,17 +41,17 @@ const (
 )
 
 type aval struct {
-	k      kind
-	c      constant.Value
-	n      int
-	tup    []aval
-	elems  []aval         // slice contents, or struct fields for kStruct
-	ptrOf  *aval          // for pointers into the fresh heap: pointee
-	notes  []string       // provenance notes (sorted set), e.g. error sentinels
-	dyn    types.Type     // dynamic type when the value sits in an interface
-	fn     *ssa.Function  // function value
-	alloc  *ssa.Alloc     // identity of the fresh cell a pointer refers to
-	tm     time.Time      // kTime
+	k     kind
+	c     constant.Value
+	n     int
+	tup   []aval
+	elems []aval        // slice contents, or struct fields for kStruct
+	ptrOf *aval         // for pointers into the fresh heap: pointee
+	notes []string      // provenance notes (sorted set), e.g. error sentinels
+	dyn   types.Type    // dynamic type when the value sits in an interface
+	fn    *ssa.Function // function value
+	alloc *ssa.Alloc    // identity of the fresh cell a pointer refers to
+	tm    time.Time     // kTime
 }
 
 var (
@@ -59,10 +59,10 @@ var (
 	top = aval{k: kTop}
 )
 
-func cBool(b bool) aval     { return aval{k: kConst, c: constant.MakeBool(b)} }
-func cInt(i int64) aval     { return aval{k: kConst, c: constant.MakeInt64(i)} }
-func cStr(s string) aval    { return aval{k: kConst, c: constant.MakeString(s)} }
-func sliceLen(n int) aval   { return aval{k: kSlice, n: n} }
+func cBool(b bool) aval   { return aval{k: kConst, c: constant.MakeBool(b)} }
+func cInt(i int64) aval   { return aval{k: kConst, c: constant.MakeInt64(i)} }
+func cStr(s string) aval  { return aval{k: kConst, c: constant.MakeString(s)} }
+func sliceLen(n int) aval { return aval{k: kSlice, n: n} }
 func nonnil(note string) aval {
 	if note == "" {
 		return aval{k: kNonNil}
@@ -342,22 +342,25 @@ func (r *result) joinedReturn() aval {
 // ---- analyzer ----
 
 type analyzer struct {
-	pin        map[ssa.Value]aval
-	maxDepth   int
-	maxBlocks  int
-	inlineAll  bool                                      // inline any static callee with a body (used for pure library helpers on request)
-	callModel  func(c *ssa.CallCommon, args []aval) (aval, bool) // optional rule-specific summaries
-	noInline   map[*ssa.Function]bool
-	stack      []*ssa.Function
-	allowRecursion bool // bounded by maxDepth (structural recursion over a finite chain)
-	cellValue  func(*ssa.Alloc) (aval, bool) // current content of a non-escaping local cell of the activation being analysed
-	globalMaps map[string]map[string]aval // constant package-level maps with string keys ("pkg.name" -> key -> value)
-	snapshots  bool                   // returned pointers to fresh allocations carry a snapshot of the pointee (ptrOf)
-	regex      map[*ssa.Global]string // package-level regexps with a constant pattern (load gives "regexp:<pattern>")
+	pin            map[ssa.Value]aval
+	maxDepth       int
+	maxBlocks      int
+	inlineAll      bool                                              // inline any static callee with a body (used for pure library helpers on request)
+	callModel      func(c *ssa.CallCommon, args []aval) (aval, bool) // optional rule-specific summaries
+	noInline       map[*ssa.Function]bool
+	stack          []*ssa.Function
+	allowRecursion bool                                    // bounded by maxDepth (structural recursion over a finite chain)
+	dynModel       func(fv aval, args []aval) (aval, bool) // calls of a function value that is not a known function
+	fnModel        func(sc *ssa.Function, args []aval) (aval, bool) // summaries by resolved callee (static, or a known function value)
+	cellValue      func(*ssa.Alloc) (aval, bool)           // current content of a non-escaping local cell of the activation being analysed
+	globalMaps     map[string]map[string]aval              // constant package-level maps with string keys ("pkg.name" -> key -> value)
+	snapshots      bool                                    // returned pointers to fresh allocations carry a snapshot of the pointee (ptrOf)
+	regex          map[*ssa.Global]string                  // package-level regexps with a constant pattern (load gives "regexp:<pattern>")
+	unroll         int                                     // iterations of an innermost loop kept apart (trace partitioning); the last one summarises the rest
 }
 
 func newAnalyzer() *analyzer {
-	return &analyzer{pin: map[ssa.Value]aval{}, maxDepth: 4, maxBlocks: 80, noInline: map[*ssa.Function]bool{}}
+	return &analyzer{pin: map[ssa.Value]aval{}, maxDepth: 7, maxBlocks: 80, noInline: map[*ssa.Function]bool{}, unroll: 4}
 }
 
 func lenOf(v aval) (int, bool) {
@@ -467,9 +470,22 @@ func (an *analyzer) analyze(fn *ssa.Function, params []aval) *result {
 }
 
 func (an *analyzer) run(fn *ssa.Function, params []aval, free []aval, depth int) *result {
+	// cut[h]: the first iteration of the loop headed by h in which a branch inside
+	// the loop is not decided; iterations before it are analysed one by one, that
+	// one and the later ones together. Found by re-running.
+	cut := map[int]int{}
+	for {
+		res, again := an.runOnce(fn, params, free, depth, cut)
+		if !again {
+			return res
+		}
+	}
+}
+
+func (an *analyzer) runOnce(fn *ssa.Function, params []aval, free []aval, depth int, cut map[int]int) (*result, bool) {
 	res := &result{fn: fn, execBlock: map[int]bool{}, pin: an.pin}
 	if len(fn.Blocks) == 0 {
-		return res
+		return res, false
 	}
 	env := map[ssa.Value]aval{}
 	for i, p := range fn.Params {
@@ -489,6 +505,31 @@ func (an *analyzer) run(fn *ssa.Function, params []aval, free []aval, depth int)
 	execEdge := map[[2]int]bool{}
 	res.execEdge = execEdge
 	res.execBlock[0] = true
+	// trace partitioning of innermost loops: iteration k of a loop is analysed as
+	// its own copy of the body (version k); version K summarises every later one
+	loops := map[int]*uloop{}
+	K := an.unroll
+	if K > 0 {
+		loops = innermostLoops(fn)
+	}
+	type verKey struct {
+		v ssa.Value
+		k int
+	}
+	envV := map[verKey]aval{}               // values defined inside an unrolled loop, per version
+	execBV := map[[2]int]bool{{0, 0}: true} // (block, version)
+	execEV := map[[4]int]bool{}             // (from, fromVersion, to, toVersion)
+	var curB *ssa.BasicBlock
+	curK := 0
+	defLoop := func(v ssa.Value) *uloop {
+		if len(loops) == 0 {
+			return nil
+		}
+		if ins, ok := v.(ssa.Instruction); ok && ins.Block() != nil && ins.Parent() == fn {
+			return loops[ins.Block().Index]
+		}
+		return nil
+	}
 	// fresh heap: per Alloc, per element/field index
 	mem := map[*ssa.Alloc][]aval{}
 	escaped := map[*ssa.Alloc]bool{}
@@ -531,10 +572,47 @@ func (an *analyzer) run(fn *ssa.Function, params []aval, free []aval, depth int)
 		case *ssa.Builtin:
 			return nonnil("builtin")
 		}
+		if L := defLoop(v); L != nil {
+			if curB != nil && loops[curB.Index] == L {
+				if a, ok := envV[verKey{v, curK}]; ok {
+					return a
+				}
+				return bot
+			}
+			// used after the loop: any iteration that ran may have produced it
+			db := v.(ssa.Instruction).Block().Index
+			j := bot
+			for k := 0; k <= K; k++ {
+				if execBV[[2]int{db, k}] {
+					j = join(j, envV[verKey{v, k}])
+				}
+			}
+			return j
+		}
 		if a, ok := env[v]; ok {
 			return a
 		}
 		return bot
+	}
+	// the version an edge leads to, taken from version k of its source
+	toVer := func(from, to *ssa.BasicBlock, k int) int {
+		L := loops[to.Index]
+		if L == nil || loops[from.Index] != L {
+			return 0
+		}
+		if to.Index == L.header {
+			if c, ok := cut[L.header]; (ok && k >= c) || k+1 > K {
+				return K
+			}
+			return k + 1
+		}
+		return k
+	}
+	versionsOf := func(b *ssa.BasicBlock) int {
+		if loops[b.Index] != nil {
+			return K
+		}
+		return 0
 	}
 	memSize := func(al *ssa.Alloc) int {
 		switch t := al.Type().(*types.Pointer).Elem().Underlying().(type) {
@@ -556,385 +634,479 @@ func (an *analyzer) run(fn *ssa.Function, params []aval, free []aval, depth int)
 		}
 		res.rets, res.hazards, res.calls, res.unknownIfs = nil, nil, nil, 0
 		mark := func(from, to int) {
-			if !execEdge[[2]int{from, to}] {
-				execEdge[[2]int{from, to}] = true
+			tk := toVer(fn.Blocks[from], fn.Blocks[to], curK)
+			if !execEV[[4]int{from, curK, to, tk}] {
+				execEV[[4]int{from, curK, to, tk}] = true
 				changed = true
 			}
-			if !res.execBlock[to] {
-				res.execBlock[to] = true
+			if !execBV[[2]int{to, tk}] {
+				execBV[[2]int{to, tk}] = true
 				changed = true
 			}
+			execEdge[[2]int{from, to}] = true
+			res.execBlock[to] = true
 		}
 		for _, b := range fn.Blocks {
-			if !res.execBlock[b.Index] {
-				continue
-			}
-			for _, ins := range b.Instrs {
-				var nv aval
-				val, isVal := ins.(ssa.Value)
-				switch x := ins.(type) {
-				case *ssa.Phi:
-					nv = bot
-					for i, p := range b.Preds {
-						if execEdge[[2]int{p.Index, b.Index}] {
-							nv = join(nv, get(x.Edges[i]))
-						}
-					}
-				case *ssa.BinOp:
-					nv = evalBinTyped(x, get(x.X), get(x.Y), res)
-				case *ssa.UnOp:
-					a := get(x.X)
-					switch {
-					case a.k == kBot:
+			for ver := 0; ver <= versionsOf(b); ver++ {
+				if !execBV[[2]int{b.Index, ver}] {
+					continue
+				}
+				curB, curK = b, ver
+				for _, ins := range b.Instrs {
+					var nv aval
+					val, isVal := ins.(ssa.Value)
+					switch x := ins.(type) {
+					case *ssa.Phi:
 						nv = bot
-					case x.Op == token.NOT && a.k == kConst:
-						nv = cBool(!constant.BoolVal(a.c))
-					case x.Op == token.SUB && a.k == kConst:
-						nv = aval{k: kConst, c: wrapInt(constant.UnaryOp(token.SUB, a.c, 0), x.Type())}
-					case x.Op == token.MUL:
-						nv = an.load(x, a, mem, escapes)
-					default:
-						nv = top
-					}
-				case *ssa.Alloc:
-					switch al := x.Type().(*types.Pointer).Elem().Underlying().(type) {
-					case *types.Array:
-						nv = aval{k: kSlice, n: int(al.Len()), alloc: x}
-						if al.Len() <= 64 {
-							nv.elems = make([]aval, al.Len())
-							copy(nv.elems, mem[x])
+						for i, p := range b.Preds {
+							for pk := 0; pk <= versionsOf(p); pk++ {
+								if toVer(p, b, pk) != ver || !execEV[[4]int{p.Index, pk, b.Index, ver}] {
+									continue
+								}
+								// the operand is read in the context of the edge's source
+								curB, curK = p, pk
+								nv = join(nv, get(x.Edges[i]))
+								curB, curK = b, ver
+							}
 						}
-					default:
-						nv = aval{k: kNonNil, alloc: x}
-					}
-				case *ssa.FieldAddr:
-					a := get(x.X)
-					if a.k == kBot {
-						nv = bot
-					} else if a.k == kNonNil && a.alloc != nil && a.n == 0 {
-						nv = aval{k: kNonNil, alloc: a.alloc, n: x.Field + 1} // n-1 = field index within the cell
-					} else if a.k == kNonNil && a.ptrOf != nil && a.ptrOf.k == kStruct && x.Field < len(a.ptrOf.elems) {
-						e := a.ptrOf.elems[x.Field]
-						if e.k == kBot {
-							e = top
-						}
-						nv = aval{k: kNonNil, ptrOf: &e}
-					} else {
-						nv = aval{k: kNonNil}
-					}
-				case *ssa.Field:
-					a := get(x.X)
-					switch {
-					case a.k == kBot:
-						nv = bot
-					case a.k == kStruct && x.Field < len(a.elems):
-						nv = a.elems[x.Field]
-						if nv.k == kBot {
+					case *ssa.BinOp:
+						nv = evalBinTyped(x, get(x.X), get(x.Y), res)
+					case *ssa.UnOp:
+						a := get(x.X)
+						switch {
+						case a.k == kBot:
+							nv = bot
+						case x.Op == token.NOT && a.k == kConst:
+							nv = cBool(!constant.BoolVal(a.c))
+						case x.Op == token.SUB && a.k == kConst:
+							nv = aval{k: kConst, c: wrapInt(constant.UnaryOp(token.SUB, a.c, 0), x.Type())}
+						case x.Op == token.MUL:
+							nv = an.load(x, a, mem, escapes)
+						default:
 							nv = top
 						}
-					default:
-						nv = top
-					}
-				case *ssa.Slice:
-					nv = an.evalSlice(x, get, res)
-				case *ssa.IndexAddr:
-					a := get(x.X)
-					i := get(x.Index)
-					if a.k == kBot || i.k == kBot {
-						nv = bot
-						break
-					}
-					an.indexHazard(x, a, i, res)
-					nv = aval{k: kNonNil}
-					if iv, ok := constInt(i); ok {
-						if a.alloc != nil && a.k == kSlice {
-							nv = aval{k: kNonNil, alloc: a.alloc, n: int(iv) + 1}
-						} else if a.elems != nil && iv >= 0 && int(iv) < len(a.elems) {
-							e := a.elems[iv]
+					case *ssa.Alloc:
+						switch al := x.Type().(*types.Pointer).Elem().Underlying().(type) {
+						case *types.Array:
+							nv = aval{k: kSlice, n: int(al.Len()), alloc: x}
+							if al.Len() <= 64 {
+								nv.elems = make([]aval, al.Len())
+								copy(nv.elems, mem[x])
+							}
+						default:
+							nv = aval{k: kNonNil, alloc: x}
+						}
+					case *ssa.FieldAddr:
+						a := get(x.X)
+						if a.k == kBot {
+							nv = bot
+						} else if a.k == kNonNil && a.alloc != nil && a.n == 0 {
+							nv = aval{k: kNonNil, alloc: a.alloc, n: x.Field + 1} // n-1 = field index within the cell
+						} else if a.k == kNonNil && a.ptrOf != nil && a.ptrOf.k == kStruct && x.Field < len(a.ptrOf.elems) {
+							e := a.ptrOf.elems[x.Field]
 							if e.k == kBot {
 								e = top
 							}
 							nv = aval{k: kNonNil, ptrOf: &e}
+						} else {
+							nv = aval{k: kNonNil}
 						}
-					}
-				case *ssa.Index:
-					a := get(x.X)
-					i := get(x.Index)
-					if a.k == kBot || i.k == kBot {
-						nv = bot
-						break
-					}
-					an.indexHazard(x, a, i, res)
-					nv = top
-					if iv, ok := constInt(i); ok && a.elems != nil && iv >= 0 && int(iv) < len(a.elems) {
-						nv = a.elems[iv]
-					}
-					if a.k == kConst && a.c.Kind() == constant.String {
+					case *ssa.Field:
+						a := get(x.X)
+						switch {
+						case a.k == kBot:
+							nv = bot
+						case a.k == kStruct && x.Field < len(a.elems):
+							nv = a.elems[x.Field]
+							if nv.k == kBot {
+								nv = top
+							}
+						default:
+							nv = top
+						}
+					case *ssa.Slice:
+						nv = an.evalSlice(x, get, res)
+					case *ssa.IndexAddr:
+						a := get(x.X)
+						i := get(x.Index)
+						if a.k == kBot || i.k == kBot {
+							nv = bot
+							break
+						}
+						an.indexHazard(x, a, i, res)
+						nv = aval{k: kNonNil}
 						if iv, ok := constInt(i); ok {
-							sv := constant.StringVal(a.c)
-							if iv >= 0 && int(iv) < len(sv) {
-								nv = cInt(int64(sv[iv]))
-							} else {
-								nv = bot
+							if a.alloc != nil && a.k == kSlice {
+								nv = aval{k: kNonNil, alloc: a.alloc, n: int(iv) + 1}
+							} else if a.elems != nil && iv >= 0 && int(iv) < len(a.elems) {
+								e := a.elems[iv]
+								if e.k == kBot {
+									e = top
+								}
+								nv = aval{k: kNonNil, ptrOf: &e}
 							}
 						}
-					}
-				case *ssa.Lookup:
-					a := get(x.X)
-					i := get(x.Index)
-					if a.k == kBot || i.k == kBot {
-						nv = bot
-						break
-					}
-					if _, isStr := x.X.Type().Underlying().(*types.Basic); isStr {
+					case *ssa.Index:
+						a := get(x.X)
+						i := get(x.Index)
+						if a.k == kBot || i.k == kBot {
+							nv = bot
+							break
+						}
 						an.indexHazard(x, a, i, res)
+						nv = top
+						if iv, ok := constInt(i); ok && a.elems != nil && iv >= 0 && int(iv) < len(a.elems) {
+							nv = a.elems[iv]
+						}
 						if a.k == kConst && a.c.Kind() == constant.String {
 							if iv, ok := constInt(i); ok {
 								sv := constant.StringVal(a.c)
 								if iv >= 0 && int(iv) < len(sv) {
 									nv = cInt(int64(sv[iv]))
+								} else {
+									nv = bot
+								}
+							}
+						}
+					case *ssa.Lookup:
+						a := get(x.X)
+						i := get(x.Index)
+						if a.k == kBot || i.k == kBot {
+							nv = bot
+							break
+						}
+						if _, isStr := x.X.Type().Underlying().(*types.Basic); isStr {
+							an.indexHazard(x, a, i, res)
+							if a.k == kConst && a.c.Kind() == constant.String {
+								if iv, ok := constInt(i); ok {
+									sv := constant.StringVal(a.c)
+									if iv >= 0 && int(iv) < len(sv) {
+										nv = cInt(int64(sv[iv]))
+										break
+									}
+									nv = bot
 									break
 								}
-								nv = bot
-								break
 							}
+							nv = top
+							break
 						}
-						nv = top
-						break
-					}
-					if v, ok := an.globalMapLookup(a, i, x); ok {
-						nv = v
-						break
-					}
-					if x.CommaOk {
-						nv = aval{k: kTuple, tup: []aval{top, top}}
-					} else {
-						nv = top
-					}
-				case *ssa.Store:
-					a := get(x.Addr)
-					v := get(x.Val)
-					if a.ptrOf != nil {
-						res.hazards = append(res.hazards, hazard{ins, ins, "store through a snapshot pointer (not modelled)"})
-					}
-					if a.k == kNonNil && a.alloc != nil && v.k != kBot {
-						al := a.alloc
-						idx := a.n - 1
-						if a.n == 0 { // store to the cell itself
-							idx = -1
+						if v, ok := an.globalMapLookup(a, i, x); ok {
+							nv = v
+							break
 						}
-						size := memSize(al)
-						if mem[al] == nil {
-							mem[al] = make([]aval, size)
-						}
-						if idx == -1 {
-							// whole-value store: scalar cell (size 1) or struct value
-							if _, isStruct := al.Type().(*types.Pointer).Elem().Underlying().(*types.Struct); isStruct {
-								for fi := range mem[al] {
-									var fv aval = top
-									if v.k == kStruct && fi < len(v.elems) {
-										fv = v.elems[fi]
-									}
-									if j := join(mem[al][fi], fv); !eq(j, mem[al][fi]) {
-										mem[al][fi] = j
-										changed = true
-									}
-								}
-							} else if size == 1 {
-								if j := join(mem[al][0], v); !eq(j, mem[al][0]) {
-									mem[al][0] = j
-									changed = true
-								}
-							}
-						} else if idx >= 0 && idx < size {
-							if j := join(mem[al][idx], v); !eq(j, mem[al][idx]) {
-								mem[al][idx] = j
-								changed = true
-							}
-						}
-						// keep the array value in step with its contents so that a
-						// later `slice t[:]` in the same block sees them at once
-						if old, ok := env[al]; ok && old.k == kSlice && old.elems != nil && len(old.elems) == len(mem[al]) {
-							nw := old
-							nw.elems = make([]aval, len(old.elems))
-							for i := range nw.elems {
-								nw.elems[i] = join(old.elems[i], mem[al][i])
-							}
-							env[al] = nw
-						}
-					}
-				case *ssa.MakeInterface:
-					a := get(x.X)
-					switch a.k {
-					case kBot:
-						nv = bot
-					case kConst:
-						nv = a
-						nv.dyn = x.X.Type()
-					case kNil:
-						// typed nil in an interface is a non-nil interface
-						nv = aval{k: kNonNil, dyn: x.X.Type()}
-					default:
-						nv = aval{k: kNonNil, notes: a.notes, dyn: x.X.Type(), fn: a.fn}
-					}
-				case *ssa.ChangeInterface:
-					nv = get(x.X)
-				case *ssa.ChangeType:
-					nv = get(x.X)
-					if nv.k == kConst || nv.k == kNonNil {
-						nv.dyn = nil
-					}
-				case *ssa.Convert:
-					a := get(x.X)
-					switch {
-					case a.k == kBot:
-						nv = bot
-					case a.k == kConst && a.c.Kind() == constant.String && isRuneOrByteSlice(x.Type()) != 0:
-						sv := constant.StringVal(a.c)
-						var es []aval
-						if isRuneOrByteSlice(x.Type()) == 'r' {
-							for _, r := range sv {
-								es = append(es, cInt(int64(r)))
-							}
-						} else {
-							for i := 0; i < len(sv); i++ {
-								es = append(es, cInt(int64(sv[i])))
-							}
-						}
-						if es == nil {
-							es = []aval{}
-						}
-						nv = aval{k: kSlice, n: len(es), elems: es}
-					case a.k == kSlice && a.elems != nil && isStringType(x.Type()) && isRuneOrByteSlice(x.X.Type()) != 0:
-						kindc := isRuneOrByteSlice(x.X.Type())
-						okc := true
-						var rs []rune
-						var bs []byte
-						for _, e := range a.elems {
-							iv, ok := constInt(e)
-							if !ok {
-								okc = false
-								break
-							}
-							if kindc == 'r' {
-								rs = append(rs, rune(iv))
-							} else {
-								bs = append(bs, byte(iv))
-							}
-						}
-						if okc {
-							if kindc == 'r' {
-								nv = cStr(string(rs))
-							} else {
-								nv = cStr(string(bs))
-							}
+						if x.CommaOk {
+							nv = aval{k: kTuple, tup: []aval{top, top}}
 						} else {
 							nv = top
 						}
-					case a.k == kConst:
-						nv = convertConst(a, x.Type())
-						if nv.k == kConst {
-							nv.c = wrapInt(nv.c, x.Type())
+					case *ssa.Store:
+						a := get(x.Addr)
+						v := get(x.Val)
+						if a.ptrOf != nil {
+							res.hazards = append(res.hazards, hazard{ins, ins, "store through a snapshot pointer (not modelled)"})
 						}
-					default:
-						nv = top
-					}
-				case *ssa.MakeSlice:
-					if l, ok := constInt(get(x.Len)); ok {
-						nv = sliceLen(int(l))
-					} else {
-						nv = aval{k: kTop}
-					}
-				case *ssa.MakeMap, *ssa.MakeChan:
-					nv = aval{k: kNonNil}
-				case *ssa.MakeClosure:
-					nv = aval{k: kNonNil, fn: x.Fn.(*ssa.Function)}
-				case *ssa.Extract:
-					t := get(x.Tuple)
-					switch {
-					case t.k == kTuple && x.Index < len(t.tup):
-						nv = t.tup[x.Index]
-					case t.k == kBot:
-						nv = bot
-					default:
-						nv = top
-					}
-				case *ssa.TypeAssert:
-					nv = an.typeAssert(x, get(x.X), res)
-				case *ssa.Call:
-					prevCell := an.cellValue
-					an.cellValue = func(al *ssa.Alloc) (aval, bool) {
-						if escapes(al) {
+						if a.k == kNonNil && a.alloc != nil && v.k != kBot {
+							al := a.alloc
+							idx := a.n - 1
+							if a.n == 0 { // store to the cell itself
+								idx = -1
+							}
+							size := memSize(al)
+							if mem[al] == nil {
+								mem[al] = make([]aval, size)
+							}
+							if idx == -1 {
+								// whole-value store: scalar cell (size 1) or struct value
+								if _, isStruct := al.Type().(*types.Pointer).Elem().Underlying().(*types.Struct); isStruct {
+									for fi := range mem[al] {
+										var fv aval = top
+										if v.k == kStruct && fi < len(v.elems) {
+											fv = v.elems[fi]
+										}
+										if j := join(mem[al][fi], fv); !eq(j, mem[al][fi]) {
+											mem[al][fi] = j
+											changed = true
+										}
+									}
+								} else if size == 1 {
+									if j := join(mem[al][0], v); !eq(j, mem[al][0]) {
+										mem[al][0] = j
+										changed = true
+									}
+								}
+							} else if idx >= 0 && idx < size {
+								if j := join(mem[al][idx], v); !eq(j, mem[al][idx]) {
+									mem[al][idx] = j
+									changed = true
+								}
+							}
+							// keep the array value in step with its contents so that a
+							// later `slice t[:]` in the same block sees them at once
+							if old, ok := env[al]; ok && defLoop(al) == nil && old.k == kSlice && old.elems != nil && len(old.elems) == len(mem[al]) {
+								nw := old
+								nw.elems = make([]aval, len(old.elems))
+								for i := range nw.elems {
+									nw.elems[i] = join(old.elems[i], mem[al][i])
+								}
+								env[al] = nw
+							}
+						}
+					case *ssa.MakeInterface:
+						a := get(x.X)
+						switch a.k {
+						case kBot:
+							nv = bot
+						case kConst:
+							nv = a
+							nv.dyn = x.X.Type()
+						case kNil:
+							// typed nil in an interface is a non-nil interface
+							nv = aval{k: kNonNil, dyn: x.X.Type()}
+						default:
+							nv = aval{k: kNonNil, notes: a.notes, dyn: x.X.Type(), fn: a.fn, ptrOf: a.ptrOf}
+							if an.snapshots && a.k == kNonNil && a.alloc != nil && a.n == 0 && a.ptrOf == nil {
+								// a freshly built object handed on as an interface value: keep what
+								// this function stored into it
+								sn := snapshotOfAs(a.alloc, mem, res.execBlock, 0, true)
+								if sn.k == kBot {
+									nv = bot
+								} else {
+									nv.ptrOf = sn.ptrOf
+								}
+							}
+						}
+					case *ssa.ChangeInterface:
+						nv = get(x.X)
+					case *ssa.ChangeType:
+						nv = get(x.X)
+						if nv.k == kConst || nv.k == kNonNil {
+							nv.dyn = nil
+						}
+					case *ssa.Convert:
+						a := get(x.X)
+						switch {
+						case a.k == kBot:
+							nv = bot
+						case a.k == kConst && a.c.Kind() == constant.String && isRuneOrByteSlice(x.Type()) != 0:
+							sv := constant.StringVal(a.c)
+							var es []aval
+							if isRuneOrByteSlice(x.Type()) == 'r' {
+								for _, r := range sv {
+									es = append(es, cInt(int64(r)))
+								}
+							} else {
+								for i := 0; i < len(sv); i++ {
+									es = append(es, cInt(int64(sv[i])))
+								}
+							}
+							if es == nil {
+								es = []aval{}
+							}
+							nv = aval{k: kSlice, n: len(es), elems: es}
+						case a.k == kSlice && a.elems != nil && isStringType(x.Type()) && isRuneOrByteSlice(x.X.Type()) != 0:
+							kindc := isRuneOrByteSlice(x.X.Type())
+							okc := true
+							var rs []rune
+							var bs []byte
+							for _, e := range a.elems {
+								iv, ok := constInt(e)
+								if !ok {
+									okc = false
+									break
+								}
+								if kindc == 'r' {
+									rs = append(rs, rune(iv))
+								} else {
+									bs = append(bs, byte(iv))
+								}
+							}
+							if okc {
+								if kindc == 'r' {
+									nv = cStr(string(rs))
+								} else {
+									nv = cStr(string(bs))
+								}
+							} else {
+								nv = top
+							}
+						case a.k == kConst:
+							nv = convertConst(a, x.Type())
+							if nv.k == kConst {
+								nv.c = wrapInt(nv.c, x.Type())
+							}
+						default:
+							nv = top
+						}
+					case *ssa.MakeSlice:
+						if l, ok := constInt(get(x.Len)); ok {
+							nv = sliceLen(int(l))
+						} else {
+							nv = aval{k: kTop}
+						}
+					case *ssa.MakeMap, *ssa.MakeChan:
+						nv = aval{k: kNonNil}
+					case *ssa.MakeClosure:
+						nv = aval{k: kNonNil, fn: x.Fn.(*ssa.Function)}
+					case *ssa.Extract:
+						t := get(x.Tuple)
+						switch {
+						case t.k == kTuple && x.Index < len(t.tup):
+							nv = t.tup[x.Index]
+						case t.k == kBot:
+							nv = bot
+						default:
+							nv = top
+						}
+					case *ssa.TypeAssert:
+						nv = an.typeAssert(x, get(x.X), res)
+					case *ssa.Call:
+						prevCell := an.cellValue
+						an.cellValue = func(al *ssa.Alloc) (aval, bool) {
+							if escapes(al) {
+								return aval{}, false
+							}
+							if m := mem[al]; m != nil && len(m) == 1 && m[0].k != kBot {
+								return m[0], true
+							}
 							return aval{}, false
 						}
-						if m := mem[al]; m != nil && len(m) == 1 && m[0].k != kBot {
-							return m[0], true
-						}
-						return aval{}, false
-					}
-					nv = an.call(x, get, depth, res)
-					an.cellValue = prevCell
-				case *ssa.Defer:
-					// deferred calls are not followed
-				case *ssa.Go:
-				case *ssa.If:
-					c := get(x.Cond)
-					t, f := b.Succs[0].Index, b.Succs[1].Index
-					switch {
-					case c.k == kConst && c.c.Kind() == constant.Bool:
-						if constant.BoolVal(c.c) {
+						nv = an.call(x, get, depth, res)
+						an.cellValue = prevCell
+					case *ssa.Defer:
+						// deferred calls are not followed
+					case *ssa.Go:
+					case *ssa.If:
+						c := get(x.Cond)
+						t, f := b.Succs[0].Index, b.Succs[1].Index
+						switch {
+						case c.k == kConst && c.c.Kind() == constant.Bool:
+							if constant.BoolVal(c.c) {
+								mark(b.Index, t)
+							} else {
+								mark(b.Index, f)
+							}
+						case c.k == kBot:
+						default:
+							if L := loops[b.Index]; L != nil && ver < K {
+								if c, ok := cut[L.header]; !ok || c > ver {
+									cut[L.header] = ver
+									return nil, true
+								}
+							}
+							res.unknownIfs++
 							mark(b.Index, t)
-						} else {
 							mark(b.Index, f)
 						}
-					case c.k == kBot:
-					default:
-						res.unknownIfs++
-						mark(b.Index, t)
-						mark(b.Index, f)
-					}
-				case *ssa.Jump:
-					mark(b.Index, b.Succs[0].Index)
-				case *ssa.Return:
-					ri := retInfo{instr: x}
-					dead := false
-					for _, r := range x.Results {
-						v := get(r)
-						if an.snapshots && v.k == kNonNil && v.alloc != nil && v.n == 0 && v.ptrOf == nil {
-							v = snapshotOf(v.alloc, mem, res.execBlock, 0)
+					case *ssa.Jump:
+						mark(b.Index, b.Succs[0].Index)
+					case *ssa.Return:
+						ri := retInfo{instr: x}
+						dead := false
+						for _, r := range x.Results {
+							v := get(r)
+							if an.snapshots && v.k == kNonNil && v.alloc != nil && v.n == 0 && v.ptrOf == nil {
+								v = snapshotOf(v.alloc, mem, res.execBlock, 0)
+							}
+							if v.k == kBot {
+								dead = true
+							}
+							ri.vals = append(ri.vals, v)
 						}
-						if v.k == kBot {
-							dead = true
+						if !dead {
+							res.rets = append(res.rets, ri)
 						}
-						ri.vals = append(ri.vals, v)
-					}
-					if !dead {
-						res.rets = append(res.rets, ri)
-					}
-				case *ssa.Panic:
-					res.hazards = append(res.hazards, hazard{ins, ins, "panic"})
-				case *ssa.Range:
-					nv = top
-				case *ssa.Next:
-					nv = aval{k: kTuple, tup: []aval{top, top, top}}
-				default:
-					if isVal {
+					case *ssa.Panic:
+						res.hazards = append(res.hazards, hazard{ins, ins, "panic"})
+					case *ssa.Range:
 						nv = top
+					case *ssa.Next:
+						nv = aval{k: kTuple, tup: []aval{top, top, top}}
+					default:
+						if isVal {
+							nv = top
+						}
 					}
-				}
-				if isVal {
-					old := env[val]
-					j := join(old, nv)
-					if !eq(old, j) {
-						env[val] = j
-						changed = true
+					if isVal {
+						if loops[b.Index] != nil {
+							old := envV[verKey{val, ver}]
+							j := join(old, nv)
+							if !eq(old, j) {
+								envV[verKey{val, ver}] = j
+								changed = true
+							}
+						} else {
+							old := env[val]
+							j := join(old, nv)
+							if !eq(old, j) {
+								env[val] = j
+								changed = true
+							}
+						}
 					}
 				}
 			}
 		}
 	}
+	curB = nil
+	for vk, a := range envV {
+		if execBV[[2]int{vk.v.(ssa.Instruction).Block().Index, vk.k}] {
+			env[vk.v] = join(env[vk.v], a)
+		}
+	}
 	res.env = env
-	return res
+	return res, false
+}
+
+// uloop: an innermost natural loop (header and body block indices).
+type uloop struct {
+	header int
+	body   map[int]bool
+}
+
+// innermostLoops maps the blocks of every innermost natural loop of fn (a loop
+// whose body contains no other loop's header and that shares no block with
+// another loop) to that loop.
+func innermostLoops(fn *ssa.Function) map[int]*uloop {
+	byHeader := map[int]*uloop{}
+	for _, t := range fn.Blocks {
+		for _, h := range t.Succs {
+			if !h.Dominates(t) {
+				continue
+			}
+			L := byHeader[h.Index]
+			if L == nil {
+				L = &uloop{header: h.Index, body: map[int]bool{h.Index: true}}
+				byHeader[h.Index] = L
+			}
+			stack := []*ssa.BasicBlock{t}
+			for len(stack) > 0 {
+				x := stack[len(stack)-1]
+				stack = stack[:len(stack)-1]
+				if L.body[x.Index] {
+					continue
+				}
+				L.body[x.Index] = true
+				stack = append(stack, x.Preds...)
+			}
+		}
+	}
+	out := map[int]*uloop{}
+	for _, L := range byHeader {
+		inner := true
+		for _, M := range byHeader {
+			if M != L && L.body[M.header] {
+				inner = false
+			}
+		}
+		if !inner {
+			continue
+		}
+		for b := range L.body {
+			out[b] = L
+		}
+	}
+	return out
 }
 
 func (an *analyzer) load(x *ssa.UnOp, a aval, mem map[*ssa.Alloc][]aval, escapes func(*ssa.Alloc) bool) aval {
@@ -1225,6 +1397,11 @@ func (an *analyzer) call(x *ssa.Call, get func(ssa.Value) aval, depth int, res *
 			sc = fv.fn
 		} else {
 			res.calls = append(res.calls, callObs{site: x, name: "dynamic", args: args, depth: depth})
+			if an.dynModel != nil {
+				if v, ok := an.dynModel(fv, args); ok {
+					return v
+				}
+			}
 			return tupleTop(c.Signature())
 		}
 	}
@@ -1240,6 +1417,11 @@ func (an *analyzer) call(x *ssa.Call, get func(ssa.Value) aval, depth int, res *
 		}
 	}
 	res.calls = append(res.calls, callObs{site: x, callee: sc, name: short(sc), args: args, depth: depth})
+	if an.fnModel != nil {
+		if v, ok := an.fnModel(sc, args); ok {
+			return v
+		}
+	}
 	if an.callModel != nil {
 		if v, ok := an.callModel(c, args); ok {
 			return v
@@ -1986,11 +2168,22 @@ func zeroOf(t types.Type) aval {
 // loads/stores, loads, stores into it, returns, and stores of its address into
 // a field of another allocation of the same kind.
 func onlyFreshEscapes(al *ssa.Alloc, depth int) bool {
+	return freshEscapes(al, depth, false)
+}
+
+// freshEscapes: with asBuilt, conversions of the pointer to an interface are
+// accepted too — the snapshot then describes the object as this function built
+// it (the join of all its own stores), not what later holders may do to it.
+func freshEscapes(al *ssa.Alloc, depth int, asBuilt bool) bool {
 	if depth > 3 || al.Referrers() == nil {
 		return false
 	}
 	for _, ref := range *al.Referrers() {
 		switch x := ref.(type) {
+		case *ssa.MakeInterface:
+			if !asBuilt {
+				return false
+			}
 		case *ssa.FieldAddr:
 			for _, r2 := range *x.Referrers() {
 				switch y := r2.(type) {
@@ -2012,7 +2205,7 @@ func onlyFreshEscapes(al *ssa.Alloc, depth int) bool {
 				return false
 			}
 			outer, ok := fa.X.(*ssa.Alloc)
-			if !ok || !onlyFreshEscapes(outer, depth+1) {
+			if !ok || !freshEscapes(outer, depth+1, asBuilt) {
 				return false
 			}
 		case *ssa.UnOp, *ssa.DebugRef, *ssa.Return:
@@ -2029,7 +2222,11 @@ func onlyFreshEscapes(al *ssa.Alloc, depth int) bool {
 
 // snapshotOf: the pointee of a fresh allocation at a return, as a value.
 func snapshotOf(al *ssa.Alloc, mem map[*ssa.Alloc][]aval, exec map[int]bool, depth int) aval {
-	if depth > 3 || !onlyFreshEscapes(al, 0) {
+	return snapshotOfAs(al, mem, exec, depth, false)
+}
+
+func snapshotOfAs(al *ssa.Alloc, mem map[*ssa.Alloc][]aval, exec map[int]bool, depth int, asBuilt bool) aval {
+	if depth > 3 || !freshEscapes(al, 0, asBuilt) {
 		return aval{k: kNonNil}
 	}
 	elemT := al.Type().(*types.Pointer).Elem()
@@ -2051,7 +2248,7 @@ func snapshotOf(al *ssa.Alloc, mem map[*ssa.Alloc][]aval, exec map[int]bool, dep
 	}
 	fix := func(v aval) aval {
 		if v.k == kNonNil && v.alloc != nil && v.n == 0 && v.ptrOf == nil {
-			return snapshotOf(v.alloc, mem, exec, depth+1)
+			return snapshotOfAs(v.alloc, mem, exec, depth+1, asBuilt)
 		}
 		return v
 	}
